@@ -321,9 +321,20 @@ def oracle_C13(spec, tr):
                         return out
         if locked is not None and j > 0 and locked[j - 1] and not locked[j]:
             T0, D0 = E[0]['torque'][j - 1], E[0]['pwm'][j - 1]
-            if not ((T0 > 0 and D0 > 0) or (T0 < 0 and D0 < 0)) and not any(sg['a'] == j and sg['dirty'] for sg in run_segments(spec, tr)):
+            dirty_here = any(sg['a'] == j and sg['dirty'] for sg in run_segments(spec, tr))
+            if not ((T0 > 0 and D0 > 0) or (T0 < 0 and D0 < 0)) and not dirty_here:
                 out.append((f'released at instant {j} although the motor net torque {T0} does not point in the commanded direction {D0}', {}))
                 return out
+            # ... the motor's net torque while held being its characteristic at standstill minus its load torque,
+            # recomputed here from the documented law (not read from the recorded torque)
+            m = tr['motor']
+            if not dirty_here and deadzone_margin(m, D0) > 1e-9:
+                Ttrue = motor_law(m, 0.0, D0) - E[0]['load torque'][j - 1]
+                sT = max(abs(motor_law(m, 0.0, D0)), abs(E[0]['load torque'][j - 1]), 1e-12)
+                if abs(Ttrue) > 1e-9 * sT and not ((Ttrue > 0 and D0 > 0) or (Ttrue < 0 and D0 < 0)):
+                    out.append((f'released at instant {j} although the motor net torque at standstill ({Ttrue}) does not point in the '
+                                f'commanded direction ({D0})', {}))
+                    return out
     return out
 
 
@@ -1145,7 +1156,11 @@ def eval_c12(ctx, case):
         # first lock check of the original run saw the attribute as it was before the run
         pwm_before = tra['ops'][0]['pwm_before']
         pwm0 = tra['els'][0]['pwm'][0] if tra['els'][0].get('pwm') else None
-        if tra['sl'] and spec.get('rules') is not None and pwm0 is not None and pwm0 != pwm_before:
+        after_reset = None
+        for op_, rec_ in zip(case['ops_b'], trb['ops']):
+            if op_['op'] == 'init':
+                after_reset = rec_['pwm_before']      # the attribute right after `reset` (before the initial conditions are re-applied)
+        if tra['sl'] and spec.get('rules') is not None and pwm0 is not None and pwm0 != pwm_before and after_reset == pwm0:
             ops_c = list(case['ops_b'])
             k = next(i for i, o in enumerate(ops_c) if o['op'] == 'init')
             ops_c.insert(k + 1, {'op': 'pwm', 'v': pwm_before})
